@@ -214,6 +214,18 @@ def run(ctx):
         ask("write molecule " + "#".join(tl.mol_request(s) for s in confs),
             lambda resp, te=te, confs=confs: (resp == "ok " + tl.hx(te)) or ctx.disagree(
                 "ConformerEnsemble.dumps_mol2 text differs from the model writer", confs[0], te, tl.unhx(resp[3:]) if resp.startswith("ok ") else resp))
+        # two dumps of the same ensemble that overlap in time (the stream's first write() starts a second dump):
+        # each text must still be the whole ensemble — conformer count and order of what was written
+        st, pair = tl.limited(lambda: tl.reentrant_dump(ens, "mol2"))
+        ctx.count("overlapping_dumps")
+        if st != "ok":
+            ctx.violation("C07:overlapping-dumps-differ", f"overlapping dump_mol2 calls on one ensemble raised {pair!r}", replay)
+        elif pair[0] != te or pair[1] != te:
+            which = "outer" if pair[0] != te else "inner"
+            n_out = (pair[0] if which == "outer" else pair[1]).count("@<TRIPOS>MOLECULE")
+            ctx.violation("C07:overlapping-dumps-differ",
+                          f"two overlapping mol2 dumps of one ensemble: the {which} text has {n_out} of {k} conformers "
+                          "(the dumps share iteration state)", replay)
         st, back = tl.limited(lambda: ml.ConformerEnsemble.loads_mol2(te))
         if st != "ok":
             ctx.violation("C07:own-output-rejected", f"ConformerEnsemble.loads_mol2 rejects the ensemble's own text: {back!r}", replay)
